@@ -89,7 +89,10 @@ pub fn build(shape: usize, consolidate: bool) -> World {
             let x1 = xot.attributes(a).nodes().next().unwrap();
             let x3 = xot.new_attribute_node(attr_x, payload("v3"));
             let n3 = xot.new_namespace_node(pfx_p, ns_2);
-            nodes.extend([d, a, n1, x1, c, b, x3, n3]);
+            // a comment before the root element: the element has a preceding sibling
+            let k0 = xot.new_comment("k");
+            xot.insert_before(a, k0).unwrap();
+            nodes.extend([d, a, n1, x1, c, b, x3, n3, k0]);
         }
         2 => {
             // two documents and an unattached text
@@ -119,16 +122,18 @@ pub fn build(shape: usize, consolidate: bool) -> World {
             nodes.extend([d, t1, a, t2, pi]);
         }
         4 => {
-            // unattached chain a/b/a/text and a text, text and comment siblings
+            // unattached chain a/b/a/text; under b: comment, the inner element (with a declaration), text
             let a = xot.new_element(name_a);
             let b = xot.new_element(name_b);
             let c = xot.new_element(name_a);
             let t = xot.new_text(&payload("t1"));
             xot.append(a, b).unwrap();
-            xot.append(b, c).unwrap();
-            xot.append(c, t).unwrap();
+            // the inner element carries a namespace declaration and has a preceding sibling
             let k = xot.new_comment(&payload("c1"));
             xot.append(b, k).unwrap();
+            xot.append(b, c).unwrap();
+            xot.set_namespace(c, pfx_p, ns_1);
+            xot.append(c, t).unwrap();
             let t2 = xot.new_text(&payload("t2"));
             xot.append(b, t2).unwrap();
             nodes.extend([a, b, c, t, k, t2]);
